@@ -38,14 +38,23 @@ def main (_args : List String) : IO UInt32 := do
     lineNo := lineNo + 1
     let toks := (line.trimAscii.toString.splitOn " ").filter (· ≠ "")
     match toks with
-    | "rej" :: "poly" :: opName :: rest =>
-      match Op.ofString? opName with
-      | none => IO.println s!"MISMATCH {lineNo} precond unknown-op {opName}"; nBad := nBad + 1
-      | some op =>
-        let exp := expected op rest
-        let got := kvGet rest "got"
-        if exp == got then IO.println s!"ok {lineNo}"; nOk := nOk + 1
-        else IO.println s!"MISMATCH {lineNo} precond op={opName} model={exp} library={got}"; nBad := nBad + 1
+    | "rej" :: dom :: opName :: rest =>
+      let got := kvGet rest "got"
+      if kvGet rest "exp" == "sysmodel" then
+        -- system overloads of every domain
+        match expectedSystem rest with
+        | none => IO.println s!"MISMATCH {lineNo} precond-system unparsable"; nBad := nBad + 1
+        | some exp =>
+          if exp == got then IO.println s!"ok {lineNo}"; nOk := nOk + 1
+          else IO.println s!"MISMATCH {lineNo} precond-system model={exp} library={got}"; nBad := nBad + 1
+      else if dom == "poly" then
+        match Op.ofString? opName with
+        | none => IO.println s!"MISMATCH {lineNo} precond unknown-op {opName}"; nBad := nBad + 1
+        | some op =>
+          let exp := expected op rest
+          if exp == got then IO.println s!"ok {lineNo}"; nOk := nOk + 1
+          else IO.println s!"MISMATCH {lineNo} precond op={opName} model={exp} library={got}"; nBad := nBad + 1
+      else pure ()
     | "mk" :: name :: nStr :: rest =>
       let n := nStr.toNat?.getD 0
       let k := (kvGet rest "k").toNat?.getD 0
